@@ -9,6 +9,7 @@ RULE = ("run <mode> slice <octets> all  (read every value, descend, take primiti
         "ALL octet strings of length <= 2 and all strings over a 14-letter structural alphabet of length <= 4; partial reads "
         "(k values then stop), reads nested in definite/indefinite parents, explicit mode switches. The reference answer is the sub-list "
         "grammar parser Spec.parseAll. non-trivial = accepted with at least one value.")
+CROSS = {'C10': 3000, 'C09': 2000, 'C03': 1500, 'C11': 1500, 'C07': 2500}   # cross streams: samples of neighbouring properties' request streams (outcomes, model <-> implementation)
 EXHAUSTIVE = {"quick": False, "thorough": False}
 EXHAUSTIVE_NOTE = {"quick": "all octet strings of length <= 2 x 3 modes; all strings over {00,01,02,04,05,1f,20,24,30,7f,80,81,82,ff} of length <= 4 x 3 modes",
                    "thorough": "all octet strings of length <= 3 (BER, DER); alphabet strings of length <= 5"}
